@@ -9,7 +9,7 @@ PROP = {
     ],
     "streams": [
         {"name": "vmeq", "driver": "drv_lang",
-         "quick": {"n": 600}, "thorough": {"n": 12000, "seeds": 4}},
+         "quick": {"n": 600}, "thorough": {"n": 8000, "seeds": 4}},
         {"name": "peep", "driver": "drv_peep",
          "quick": {"n": 600}, "thorough": {"n": 20000, "seeds": 4}},
     ],
